@@ -140,6 +140,35 @@ fn park_case(tier: Tier) -> BoxedStrategy<RxCase> {
         .boxed()
 }
 
+/// The same idea with a sync frame: a complete packet whose channel parent (the packet right in front of it) never
+/// arrives, nothing else waiting, then a sync frame that names a packet id beyond it - over and over. Wherever the
+/// receive window goes, the packet's data must stay inside the allocation or be released.
+fn sync_park_case(tier: Tier) -> BoxedStrategy<RxCase> {
+    (5usize..tier.pick(80, 400), 1448u32..60_000, 0u8..3, prop_oneof![Just(0u8), Just(1u8), Just(2u8)], prop_oneof![Just(0u32), (0u32..50).prop_map(|d| PKT_MASK - d), 0u32..=PKT_MASK], prop_oneof![Just(0u32), any::<u32>()], prop_oneof![Just(2i32), 2i32..6], any::<bool>())
+        .prop_map(|(n, limit, a, receive_when, pkt_base, frm_base, sync_lead, with_frame_id)| {
+            let frags = ((limit as usize / FRAG).max(1)).min(24) as u16;
+            let mut ops = Vec::new();
+            for _ in 0..n {
+                for f in 0..frags {
+                    let x = RDatagram { lead: 1, ch: a, w: 1, h: 1, frag: f, last: frags - 1, len: 1448 };
+                    ops.push(ROp::Data { gap: 1, dgs: vec![x] });
+                }
+                if receive_when == 1 {
+                    ops.push(ROp::Receive);
+                }
+                ops.push(ROp::Sync { frame_lead: if with_frame_id { Some(0) } else { None }, packet_lead: Some(sync_lead) });
+                if receive_when == 2 {
+                    ops.push(ROp::Receive);
+                }
+                ops.push(ROp::StepFlush { dt_ms: 5 });
+            }
+            ops.push(ROp::Receive);
+            ops.push(ROp::StepFlush { dt_ms: 5 });
+            RxCase { limit, win_log2: 12, fwin_log2: 12, pkt_base, frm_base, ops }
+        })
+        .boxed()
+}
+
 fn rx_case(tier: Tier) -> BoxedStrategy<RxCase> {
     let flood_max = tier.pick(6_000u32, 400_000u32);
     let ops = proptest::collection::vec(rop(flood_max), 1..tier.pick(60, 200));
@@ -451,7 +480,7 @@ impl Check for C06 {
 
     fn strategy(&self, tier: Tier) -> BoxedStrategy<Case> {
         let p = GenParams { max_ticks: tier.pick(150, 400), max_sends: 10, max_frags: tier.pick(6, 20), tail: true, tight_alloc: true, modes: [1, 2, 2, 3], ..GenParams::default() };
-        prop_oneof![4 => rx_case(tier).prop_map(Case::Receiver), 1 => park_case(tier).prop_map(Case::Receiver), 1 => scenario_strategy(&p).prop_map(Case::Sender), 1 => scenario_strategy(&p).prop_map(Case::SenderLossy), 2 => ep_case(tier).prop_map(Case::Endpoints)].boxed()
+        prop_oneof![4 => rx_case(tier).prop_map(Case::Receiver), 1 => park_case(tier).prop_map(Case::Receiver), 1 => sync_park_case(tier).prop_map(Case::Receiver), 1 => scenario_strategy(&p).prop_map(Case::Sender), 1 => scenario_strategy(&p).prop_map(Case::SenderLossy), 2 => ep_case(tier).prop_map(Case::Endpoints)].boxed()
     }
 
     fn cases(&self, tier: Tier) -> u64 {
@@ -467,7 +496,7 @@ impl Check for C06 {
     }
 
     fn rule(&self) -> String {
-        "four case kinds. Endpoints: a real Client and Server with independently generated max_receive_alloc (1448 B .. 1 MB, multiples of the fragment size and their neighbours) and max_packet_size settings exchange bursts in both directions on loss-free links, either side sometimes not stepping; optionally a raw peer completes the handshake by hand advertising an allocation of its own choice and floods first fragments of packets that never complete. Oracle: the allocation each endpoint holds for received data never exceeds ITS OWN rounded max_receive_alloc whatever the peer advertised; from the wire, neither sender has more fragment-rounded bytes outstanding than the peer advertised; once both send buffers have drained every Reliable packet has been delivered (nothing discarded for lack of receive memory). Receiver: a lone receiving HalfConnection (limit 1 B .. 4 MB, windows 2^k) is fed hostile data-frame streams - datagrams with packet ids inside / at the edge of / outside the window, claimed fragment counts up to 65536, packets that never complete, arbitrary parent leads, frame ids spaced 1 / 33 / 64 / thousands apart (to defeat ack-group merging), floods of up to 6*10^3 (quick) or 4*10^5 (thorough) frames, sync frames, with receive() and step()+flush() called at generated points or never; one receiver case in five repeats a 'wedge' pattern: a complete packet as large as the allocation permits which can never be delivered (its channel parent lead names a packet of another channel) between packets that are delivered at once. Oracle after every op (every 64 frames inside a flood): live heap bytes of the case's thread minus the post-construction baseline <= max_receive_alloc rounded up to a fragment + 0.25% (reassembly bitmaps) + 160 KiB (bookkeeping bounded by protocol constants: a frame window's worth of ack groups). Sender: one-way SimPair transfer over a loss-free data link with lossy / delayed / duplicated acks and generated peer limits; from the wire alone, packets emitted beyond the newest packet-window base handed to the sender number <= window and sum (fragment-rounded) <= the peer's rounded limit; the receiver's allocation counter never exceeds its limit and, at quiescence, every non-TimeSensitive packet was delivered (none discarded for lack of memory) and neither side still counts any allocation; a lossy variant adds loss / duplication / reordering on the data link (partially received packets that the window passes) and owes every Reliable packet. Non-trivial = receiver: allocation counter came within one fragment of the limit or >= 10^4 frames were fed; sender: the sender was blocked by window or allocation at least once.".into()
+        "four case kinds. Endpoints: a real Client and Server with independently generated max_receive_alloc (1448 B .. 1 MB, multiples of the fragment size and their neighbours) and max_packet_size settings exchange bursts in both directions on loss-free links, either side sometimes not stepping; optionally a raw peer completes the handshake by hand advertising an allocation of its own choice and floods first fragments of packets that never complete. Oracle: the allocation each endpoint holds for received data never exceeds ITS OWN rounded max_receive_alloc whatever the peer advertised; from the wire, neither sender has more fragment-rounded bytes outstanding than the peer advertised; once both send buffers have drained every Reliable packet has been delivered (nothing discarded for lack of receive memory). Receiver: a lone receiving HalfConnection (limit 1 B .. 4 MB, windows 2^k) is fed hostile data-frame streams - datagrams with packet ids inside / at the edge of / outside the window, claimed fragment counts up to 65536, packets that never complete, arbitrary parent leads, frame ids spaced 1 / 33 / 64 / thousands apart (to defeat ack-group merging), floods of up to 6*10^3 (quick) or 4*10^5 (thorough) frames, sync frames, with receive() and step()+flush() called at generated points or never; one receiver case in five repeats a 'wedge' pattern: a complete packet as large as the allocation permits which can never be delivered (its channel parent lead names a packet of another channel) between packets that are delivered at once, and one in seven a complete packet whose channel parent (the packet right in front of it) never arrives, followed by a sync frame naming a packet id beyond it. Oracle after every op (every 64 frames inside a flood): live heap bytes of the case's thread minus the post-construction baseline <= max_receive_alloc rounded up to a fragment + 0.25% (reassembly bitmaps) + 160 KiB (bookkeeping bounded by protocol constants: a frame window's worth of ack groups). Sender: one-way SimPair transfer over a loss-free data link with lossy / delayed / duplicated acks and generated peer limits; from the wire alone, packets emitted beyond the newest packet-window base handed to the sender number <= window and sum (fragment-rounded) <= the peer's rounded limit; the receiver's allocation counter never exceeds its limit and, at quiescence, every non-TimeSensitive packet was delivered (none discarded for lack of memory) and neither side still counts any allocation; a lossy variant adds loss / duplication / reordering on the data link (partially received packets that the window passes) and owes every Reliable packet. Non-trivial = receiver: allocation counter came within one fragment of the limit or >= 10^4 frames were fed; sender: the sender was blocked by window or allocation at least once.".into()
     }
 
     fn assumptions(&self) -> Vec<String> {
